@@ -31,6 +31,10 @@ class _R(Enum):
 
 ROLES = h.RoleSet.from_enum(_R)
 ROLE = {"HOST": ROLES.HOST, "DEVICE": ROLES.DEVICE, None: None}
+# the same roles as other objects (the enum converted a second time; stand-alone Roles): roles are what they are called
+ROLES2 = h.RoleSet.from_enum(_R)
+IROLE = {"same": ROLE, "again": {"HOST": ROLES2.HOST, "DEVICE": ROLES2.DEVICE, None: None},
+         "alone": {"HOST": h.Role(name="HOST"), "DEVICE": h.Role(name="DEVICE"), None: None}}
 
 
 def leaf_json(name, kind, w):
@@ -45,7 +49,8 @@ def leaf_json(name, kind, w):
     return d
 
 
-def build_bundle(tree, name, counter):
+def build_bundle(tree, name, counter, irole=None):
+    irole = irole or ROLE
     b = h.Bundle(name=f"{name}{next(counter)}")
     b.roles = ROLES
     for s in tree["sigs"]:
@@ -62,12 +67,12 @@ def build_bundle(tree, name, counter):
             sig = h.Signal(width=w, src=ROLE[s["src"]], dest=ROLE[s["dest"]])
         setattr(b, s["n"], sig)
     for sub in tree["subs"]:
-        sb = build_bundle(sub["of"], name + "_" + sub["n"], counter)
+        sb = build_bundle(sub["of"], name + "_" + sub["n"], counter, irole)
         # a sub-bundle instance may itself be declared `port=True`: port-ness is the top-level instance's alone
         if sub["flip"] and sub.get("via") == "fn":
-            inst = hbundle.flipped(sb(role=ROLE[sub["role"]], port=bool(sub.get("port"))))
+            inst = hbundle.flipped(sb(role=irole[sub["role"]], port=bool(sub.get("port"))))
         else:
-            inst = sb(role=ROLE[sub["role"]], flipped=sub["flip"], port=bool(sub.get("port")))
+            inst = sb(role=irole[sub["role"]], flipped=sub["flip"], port=bool(sub.get("port")))
         setattr(b, sub["n"], inst)
     return b
 
@@ -77,10 +82,11 @@ DIRS = {0: "input", 1: "output", 2: "inout", 3: "none"}
 
 def build_inner(case, B):
     inner = h.Module(name="Inner")
+    irole = IROLE[case.get("role_objs", "same")]
     if case["flip"] and case.get("via") == "fn":
-        inner.p = hbundle.flipped(B(port=True, role=ROLE[case["role"]]))
+        inner.p = hbundle.flipped(B(port=True, role=irole[case["role"]]))
     else:
-        inner.p = B(port=True, role=ROLE[case["role"]], flipped=case["flip"])
+        inner.p = B(port=True, role=irole[case["role"]], flipped=case["flip"])
     inner.q = B()
     return inner
 
@@ -92,7 +98,7 @@ def impl(case):
              vckt.Port.Direction.INOUT: "inout", vckt.Port.Direction.NONE: "none"}
     # Inner by itself: its flattened ports and internal signals
     try:
-        B0 = build_bundle(case["tree"], "B", itertools.count())
+        B0 = build_bundle(case["tree"], "B", itertools.count(), IROLE[case.get("role_objs", "same")])
         pkg0 = h.to_proto(build_inner(case, B0))
     except Exception as ex:  # noqa
         return {"reject": f"{type(ex).__name__}: {str(ex)[-200:]}"}
@@ -104,7 +110,7 @@ def impl(case):
     out = {"ports": ports, "internal": internal}
     # ... and under parents
     try:
-        B = build_bundle(case["tree"], "B", itertools.count())
+        B = build_bundle(case["tree"], "B", itertools.count(), IROLE[case.get("role_objs", "same")])
         inner = build_inner(case, B)
         outer = h.Module(name="Outer")
         outer.b = B()
@@ -257,7 +263,8 @@ def exhaustive_small():
                     for d in range(depth):
                         t = {"sigs": [], "subs": [{"n": f"l{d}", "flip": flips[d + 1], "via": "ctor", "role": roles[d + 1], "of": t,
                                                    "port": (sum(flips) + d) % 2 == 1}]}
-                    yield {"tree": t, "flip": flips[0], "via": "fn" if depth == 1 else "ctor", "role": roles[0]}
+                    yield {"tree": t, "flip": flips[0], "via": "fn" if depth == 1 else "ctor", "role": roles[0],
+                           "role_objs": ("same", "again", "alone")[(len(kind) + depth + sum(flips)) % 3]}
 
 
 def run(ctx):
@@ -271,7 +278,8 @@ def run(ctx):
     n = 250 if ctx.quick else 5000
     for k in range(n):
         cases.append({"anon_seed": k, "tree": rand_tree(rng, rng.choice([0, 1, 1, 2, 2, 3]), rng.choice([1, 2, 3])),
-                      "flip": rng.random() < 0.5, "via": rng.choice(["ctor", "fn"]), "role": rng.choice([None, "HOST", "DEVICE"])})
+                      "flip": rng.random() < 0.5, "via": rng.choice(["ctor", "fn"]), "role": rng.choice([None, "HOST", "DEVICE"]),
+                      "role_objs": rng.choice(["same", "same", "again", "alone"])})
     cases = [c for c in cases if leafcount(c["tree"]) > 0]
     S.run(ctx, cases)
 
